@@ -22,7 +22,7 @@ Proof. exact like_pair. Qed.
 Theorem C16_one_tuple : forall c t v, enc c (TPair t TUnit) (VPair v VUnit) = enc c t v.
 Proof. exact like_one_tuple. Qed.
 Theorem C16_decodes_as_target : forall a b v bs known rest,
-  like spec_c a b -> nobits b = true -> wf_ty b = true -> wf b v = true -> enc_spec a v = EOk bs ->
+  like spec_c a b -> wf_ty b = true -> wf b v = true -> enc_spec a v = EOk bs ->
   runo (dec b) known (bs ++ rest) = OOk (canon b v) rest.
 Proof. exact like_decodes. Qed.
 
